@@ -19,10 +19,6 @@ contract('parso.python.errors.ErrorFinder._add_indentation_error',
          params={'self': 'ref:ErrorFinder', 'spacing': 'ref', 'message': 'str'}, requires=['spacing is not None'], props=['C13'])
 
 # an Issue copies its range from the node it is given
-contract('parso.tree.NodeOrLeaf.start_pos', kind='property', params={'self': 'ref:NodeOrLeaf'}, returns='pos', trusted=True,
-         ensures=[], note='abstract property; overrides are verified in tree_pos.py')
-contract('parso.tree.NodeOrLeaf.end_pos', kind='property', params={'self': 'ref:NodeOrLeaf'}, returns='pos', trusted=True,
-         ensures=[], note='abstract property; overrides are verified in tree_pos.py')
 contract('parso.normalizer.Issue.__init__',
          params={'self': 'ref:Issue', 'node': 'ref:NodeOrLeaf', 'code': 'int', 'message': 'str'},
          requires=['node is not None'],
